@@ -4,7 +4,8 @@
    namespace number and a local name).  Shared by Model/ImscTiming.v, Model/ImscWrite.v and the
    specifications; it contains data and look-ups only. *)
 From TT Require Import Base.Prelude.
-From Coq Require Import String Ascii.
+From Coq Require Import String Ascii QArith.
+Local Open Scope Z_scope.
 
 (* ---- text literals ------------------------------------------------------------------ *)
 Definition tx (s : string) : text := List.map (fun a => Z.of_N (N_of_ascii a)) (list_ascii_of_string s).
@@ -94,3 +95,24 @@ Definition V_base := Eval vm_compute in tx "base".          Definition V_text :=
 Definition V_delimiter := Eval vm_compute in tx "delimiter".
 Definition V_baseContainer := Eval vm_compute in tx "baseContainer".
 Definition V_textContainer := Eval vm_compute in tx "textContainer".
+
+(* ---- the canonical-model tree the reader builds / the writer starts from (timing view) ---- *)
+Inductive ekind := KBody | KDiv | KP | KSpan | KRuby | KRb | KRt | KRp | KRbc | KRtc | KBr | KSet | KRegion | KText.
+
+Definition ekind_code (k : ekind) : Z :=
+  match k with KBody => 0 | KDiv => 1 | KP => 2 | KSpan => 3 | KRuby => 4 | KRb => 5 | KRt => 6 | KRp => 7
+             | KRbc => 8 | KRtc => 9 | KBr => 10 | KSet => 11 | KRegion => 12 | KText => 13 end.
+Definition ekind_eqb (a b : ekind) : bool := ekind_code a =? ekind_code b.
+
+
+(* an animation step as read: attribute name, raw value, begin, end (relative to the parent) *)
+Definition anim := (qname * text * Q * option Q)%type.
+
+(* the canonical-model tree built by the reader (timing view) *)
+Inductive mnode :=
+  | MText (t : text)
+  | MElem (k : ekind) (rid : option text) (b e : option Q) (preserve : bool) (lang : text)
+          (region : option text) (anims : list anim) (cs : list mnode).
+
+Definition m_kind (n : mnode) : ekind := match n with MText _ => KText | MElem k _ _ _ _ _ _ _ _ => k end.
+
